@@ -94,6 +94,11 @@ def gen_cases(ctx):
                    "instance": {"cls": "benchmark"},
                    "filter": {"names": [rng.choice(gen.FILTER_NAMES)], "form": "function"},
                    "policy": "random_ready"}
+    for i in range(ctx.scale(40, 2000)):
+        inst = gen.gen_instance(rng, rng.choice(["classic", "irregular", "recirc", "flexible"]), max_jobs=3,
+                                max_machines=3)
+        yield {"kind": "throwaway", "seed": rng.randrange(2**31), "instance": inst, "rounds": 25,
+               "filter": {"names": [rng.choice(gen.FILTER_NAMES)], "form": "function"}}
     for i in range(ctx.scale(12, 600)):
         # process-wide growth: every case brings instances with more machines than ever before
         yield {"kind": "growing", "seed": rng.randrange(2**31), "first_m": 41 + 4 * i, "steps": 4,
@@ -107,6 +112,33 @@ def gen_cases(ctx):
 
 
 _LARGEST_M = [40]     # larger than any machine count the other cases of this process use
+
+
+def run_throwaway(ctx, case):
+    """Many short-lived dispatchers for sibling histories of one instance (a search that builds a
+    dispatcher per candidate, replays a prefix, looks at the clock and throws it away)."""
+    from job_shop_lib.dispatching import Dispatcher
+    rng = random.Random(case["seed"])
+    inst = case["instance"]
+    instance = gen.build(inst)
+    spec = case["filter"]
+    for k in range(case["rounds"]):
+        run = Run(inst, spec, instance=instance)
+        n = rng.randint(1, max(1, run.r.num_ops - 1))
+        for _ in range(n):
+            o, m = run.choose(rng, "random_ready")
+            run.dispatch(o, m)
+        now = run.d.current_time()
+        ctx.count("clock_steps_checked")
+        ctx.count("clock_reads_on_throwaway_dispatchers")
+        want = run.ref_now()
+        if want is not None and now != want:
+            ctx.violation("c06_clock_differs_from_reference",
+                          {"got": now, "want": want, "history": list(run.r.history), "filter": run.filter_names,
+                           "who": f"throw-away dispatcher number {k + 1} for the same instance"})
+            return
+        del run
+    ctx.note_case(case, True, fingerprint="throwaway:%s" % case["seed"])
 
 
 def run_growing(ctx, case):
@@ -486,6 +518,8 @@ def run_case(ctx, case):
         return
     if case["kind"] == "growing":
         return run_growing(ctx, case)
+    if case["kind"] == "throwaway":
+        return run_throwaway(ctx, case)
     if case["kind"] == "history":
         run, adv = one_history(ctx, case)
         fp = hash((gen.fingerprint(case["instance"]), str(case.get("filter")), tuple(run.r.history)))
